@@ -3,6 +3,7 @@
 reaction by reaction (provided stage inputs acts a multiset, final result / error class, panic, stuck).
 -/
 import Arca.Driver.Codec
+import Arca.Driver.WfCheck
 
 open Lean (Json)
 
@@ -108,6 +109,10 @@ def runLoopCaseWith (c : Json) (errCap : Nat) (fns : Fns) (full : Bool) : LoopOu
   if !(c.getObjVal? "skip" matches .error _) then return { verdict := "skip", detail := .str "harness skipped" }
   if !(getBool c "translatable") then return { verdict := "skip", detail := .str "expression outside the fragment" }
   let some P := decPrepared (getObj c "prepared") errCap | return { verdict := "skip", detail := .str "cannot decode prepared" }
+  let wfBad := wfViolations P
+  if !wfBad.isEmpty then
+    return { verdict := "diff", detail := Json.mkObj [("what", "prepared-workflow-not-well-formed"),
+      ("clauses", .arr (wfBad.map Json.str).toArray)] }
   let events := (getArr c "events").map decEvent
   let obsProvides := (getArr c "provides").map (fun p =>
     (getNat p "event", (⟨getStr p "step", getStr p "stage", decVal (getObj p "input")⟩ : Provide)))
